@@ -44,6 +44,31 @@ CHECKS = {
         technique="TLA+ reference parser in both modes with Tier-A invariants (TLC); replay; TLC acceptors for outcomes and "
                   "trees",
         ref="DESIGN.md §5 C06"),
+    'C09': dict(
+        text="A TLA+ model makes the state that survives between parse calls explicit (cached standard-argument parser "
+             "instances and their lazily created inner parsers, the verbatim nesting counter, frozen databases) and TLC "
+             "enumerates all histories of parse calls up to the bound, checking that every result is the fresh-interpreter "
+             "result; the as_implemented variant (counter on the cached instance) must give the two-step counterexample. "
+             "Every history is replayed in a process forked from a pristine parent and each call's result is compared "
+             "exactly with the same parse in a fresh interpreter; the database projection must be unchanged by every call.",
+        note="Bounded: 12 documents (all standard argument types, nested verbatim, tolerant erroneous input, default "
+             "database incl. legacy verbatim parsers); all histories <=3 (quick) / <=4 (thorough) plus random histories "
+             "of length 12. The `frozen` flag set by the walker is documented behaviour and not counted as a modification.",
+        technique="TLA+ history model (ParseHistory.tla) model-checked with TLC; every history replayed against "
+                  "fresh-interpreter baselines",
+        ref="DESIGN.md §5 C09"),
+    'C10': dict(
+        text="Tier A (Modes.tla) hands expectations down the tree: contents of math nodes are in math mode with the "
+             "opening delimiter (inline iff $ or \\(), arguments of the documented text-like macros are in text mode, the "
+             "argument of \\ensuremath and bodies of the documented math environments are in math mode, everything else "
+             "inherits; the lists are frozen from the documentation. TLC checks ModesOK on every tree of the reference "
+             "parser (strict and tolerant) over the math alphabet and the context alphabets, also starting inside math "
+             "mode; real trees must equal the model's; deviating and sampled real trees are judged by TLC with ModesOK.",
+        note="Bounded: strings <=5 atoms over the 9-atom math alphabet (quick; 7 thorough), <=4/5 atoms over 15/16-atom "
+             "alphabets with text-like macros, \\ensuremath, math environments; default database and model context.",
+        technique="TLA+ reference parser + Tier-A mode predicate (Modes.tla) checked by TLC; replay; real trees validated "
+                  "by TLC (TraceTree.tla)",
+        ref="DESIGN.md §5 C10"),
     'C11': dict(
         text="TLC checks the Tier-A clauses (peek purity, peek = next, strict advance, reread after move_to_token equal, "
              "tiling/lossless, bounded number of reads, termination) on a reader machine built on a transcription of "
@@ -97,6 +122,19 @@ CHECKS = {
              "enable_groups are assumed not to interact with cached tables.",
         technique="TLA+ model of ParsingState.sub_context (PState.tla) model-checked with TLC; every chain replayed",
         ref="DESIGN.md §5 C17"),
+    'C19': dict(
+        text="Visit.tla is the acceptor: the callback log must be the post-order of the structure (obtained by an "
+             "independent walk over public attributes), arguments before body, each vertex once, the right callback, each "
+             "callback receiving exactly its children's return values (None placeholders included). VisitorRef.tla is the "
+             "DFS as an explicit-stack machine; TLC checks it against those clauses on every abstract tree up to the bound "
+             "(a pre-order variant is a control). The callback logs of a recording LatexNodesVisitor on every real tree "
+             "(strict and tolerant, all strings up to the bound, two contexts) are validated by TLC; corrupted logs must be "
+             "rejected.",
+        note="Bounded: abstract trees <=5/6 vertices; real trees of all strings <=3/4 atoms (model context) and <=2/3 "
+             "(default database): ~87k logs / 390k callbacks in the quick tier.",
+        technique="TLA+ DFS reference (VisitorRef.tla) model-checked with TLC; implementation callback traces validated by "
+                  "TLC against an acceptor spec (Visit.tla)",
+        ref="DESIGN.md §5 C19"),
     'C20': dict(
         text="TLC checks the scanner model against the statement (TableOK, Complete, termination) for every string up "
              "to the bound and every offset triple; every table TLC prints is compared position by position with the "
